@@ -167,3 +167,27 @@ claim("C15", "other",
       "settings identical, and cross-object / caller-argument / later-default independence by mutating every attribute in place or by assignment.",
       "Trusted: deepcopy / np.array allocate at every level; json; the table of immutable (number/string/boolean/None) parameters; the AST matcher.",
       "structural contract obligations on constructor/serialisation ASTs + bounded native round-trip and aliasing checks", "DESIGN.md 5/C15")
+
+claim("C12", "other",
+      "Structural obligations on the AST: write_hvsr_object_to_file never rebinds its `hvsr` parameter, stores hvsr.frequency / "
+      "hvsr.mean_curve(distribution_mc) / hvsr.std_curve(distribution_mc) in columns 0, -2, -1 in every branch and works on a deep copy of the "
+      "meta dictionary; read_hvsr_object_from_file runs the peak search with the stored range before installing the stored masks, by plain "
+      "assignment. Bounded (labelled; savetxt/loadtxt/json/regex are external): real write/read round trips - traditional after random "
+      "histories (range updates, FDWRA, manual, mask replacement, accepted windows without a peak), azimuthal (1-4 azimuths incl. non-integer, "
+      "unequal counts, ranges, masks), diffuse field - comparing frequencies, curves bit for bit, masks, search range, peaks and every statistic, "
+      "plus the file's columns against the written object.",
+      "Trusted: numpy text I/O at '%.18e', json, the header regex; the AST matcher.",
+      "structural contract obligations on writer/reader ASTs + bounded native round trips", "DESIGN.md 5/C12")
+
+claim("C07", "other",
+      "Proof: _check_npts raises ValueError iff header and found counts differ. Structural: read() decides the broadcasting of "
+      "degrees_from_north and of obspy_read_kwargs each from its own type and zips names, options and orientations in order; the reader "
+      "registry and its order. Bounded (labelled; regular expressions and obspy are external): SAF, MiniShark and PEER files written from a "
+      "grammar - all 6 channel / file orders, NORTH_ROT present / absent, 12 PEER component-code layouts incl. counter-clockwise and "
+      "equidistant azimuths, explicit degrees_from_north incl. 0, gain and conversion factor, both line endings, unequal PEER lengths, count "
+      "mismatches - and miniSEED (one and three files) / SAC (both byte orders) written with obspy in all 6 trace / file orders with 4 "
+      "channel-naming variants, the GCF example, duplicated component, unrecognised file; read() with scalar / list / tuple / array / numpy "
+      "scalar / 0 orientations and per-recording options: components hold exactly the stored samples (single precision for the integer text "
+      "formats), the file's time step and the right orientation.",
+      "Trusted: re, obspy (also used to write the binary test files), float32 rounding; GCF only from the one example file (obspy cannot write GCF).",
+      "contract proof of the count check + structural obligations + bounded grammar-based native reader checks", "DESIGN.md 5/C07")
